@@ -6,6 +6,7 @@ import (
 	"math/rand"
 	"net/url"
 	"strings"
+	"sync/atomic"
 	"time"
 
 	"github.com/beevik/etree"
@@ -732,6 +733,21 @@ func c05Run(r *core.Run, idx int, rng *rand.Rand) {
 			r.Count("primed_with_accepted_genuine_request", 1)
 		}
 		c.Labels = append(c.Labels, "primed")
+	}
+	// now and then the key storage fails while the request is served: whatever the handler falls back to, the
+	// signing requirement stays in force (refusing the request is of course fine)
+	if idx%9 == 5 {
+		kind := []string{sim.FaultError, sim.FaultNilRecord, sim.FaultKeyNoCert, sim.FaultCertNoKey, sim.FaultEmptyCert}[rng.Intn(5)]
+		transient := rng.Intn(2) == 0
+		var nth atomic.Int64
+		e.W.Plan = func(tag, op string, occ int) string {
+			if op == "GetResponseSigningKey" && (nth.Add(1) == 1 || !transient) {
+				return kind
+			}
+			return ""
+		}
+		c.Labels = append(c.Labels, "key_storage_fault")
+		r.Count("requests_during_key_storage_fault", 1)
 	}
 	call := e.Do(env.Req{Method: c.Method, Path: env.PathSSO, Query: c.Query, Body: c.Body})
 	lbl := strings.Join(c.Labels, ",")
